@@ -242,6 +242,17 @@ func genS(prop string) func(r *sim.Rng, tier string) any {
 				}
 			}
 		}
+		if (prop == "C09" || prop == "C07" || prop == "C10") && len(p.Certs) > 0 && r.Bool(0.12) {
+			// another client of the underlying agent adds an identity while a call of the shim is in flight - between
+			// the two listings of one Signers call, say
+			for i := 0; i < r.Range(1, 2); i++ {
+				role := p.Certs[r.Intn(len(p.Certs))].Role
+				if r.Bool(0.25) && len(p.Keys) > 0 {
+					role = p.Keys[r.Intn(len(p.Keys))].Role
+				}
+				p.Faults = append(p.Faults, refagent.PeerFault{At: -1, OnKind: "list", Nth: r.Intn(8), Fault: refagent.ActPrefix + role})
+			}
+		}
 		if prop == "C10" && r.Bool(0.2) {
 			// an underlying agent that is merely slow (touch or PIN prompt): no fault, the reply is honest. Such
 			// plans carry no time boundaries, so that it does not matter when within the slow call the clock is read.
